@@ -11,7 +11,7 @@ RULE = ('Hypothesis draws one of the 2x2 client/server pairs (threaded Client or
         'the threaded Server or the AsyncServer; same-kind pairs in their native world, cross-kind '
         'pairs in a hybrid world where the baton scheduler and the virtual-time loop share one '
         'clock), the client transport '
-        'list ([polling], [websocket], default = polling then upgrade), heartbeat settings, handler '
+        'list ([polling], [websocket], default = polling then upgrade), heartbeat settings (plain interval or (interval, grace)), handlers that may take virtual time on either side, handler '
         'dispatch mode and a conversation: bursts of 1..40 sends in either direction with text / '
         'JSON / binary payloads, sends from inside the client connect handler (queued across the '
         'upgrade), idle periods of up to 50 (quick) / 300 (thorough) heartbeat cycles, with or '
